@@ -14,7 +14,7 @@
 From Coq Require Import Ascii String List ZArith Bool Arith.
 Import ListNotations.
 From TI Require Import model.Query model.QuerySpec proofs.QueryReadProofs proofs.QueryParseProofs
-  proofs.QueryGetProofs.
+  proofs.QueryGetProofs proofs.QueryEndProofs.
 Open Scope Z_scope.
 
 (** *** the read loop *)
@@ -107,6 +107,49 @@ Theorem C12_getters_drain_single_phase :
         now st <= now st' <= now st + qtimeout cfg + 2 * c.
 Proof. exact query_reads_all. Qed.
 Print Assumptions C12_getters_drain_single_phase.
+
+(** *** end to end: what the terminal said is what is reported
+
+    [profile_terminal p delays] answers every query of a request from the profile [p], each
+    reply written as a unit, the j-th one [delays request]_j ticks after the request.
+    [timely]: the delays do not decrease (replies in order) and the last one, plus one step
+    per byte, is inside the timeout.  [exp_fg_bg] / [exp_name_version] are functions of the
+    PROFILE (QuerySpec.v), not of reply bytes. *)
+
+(** get_fg_bg_colors(): for EVERY well-formed profile (each of the three replies present or
+    not; 1-4 hex digits per component independently; ST or BEL), every cost oracle and every
+    timely delay assignment: the replied colours, each component scaled by its own width;
+    nothing left unread; within one timeout. *)
+Theorem C12_fg_bg_reports_profile :
+  forall cost c, (forall i, 0 <= cost i <= c) ->
+    forall cfg, enabled cfg = true -> 0 < qtimeout cfg ->
+    forall p, wf_profile p = true ->
+    forall delays st D,
+      pend st = [] -> timely c cfg (profile_terminal p delays) FGBG_request D ->
+      exists st',
+        get_fg_bg cost cfg (profile_terminal p delays) st = (Some (exp_fg_bg cfg p), st') /\
+        pend st' = [] /\ written st' = written st ++ [FGBG_request] /\
+        now st <= now st' <= now st + qtimeout cfg
+          + c * (Z.of_nat (length (stream (profile_terminal p delays FGBG_request))) + 4).
+Proof. exact fg_bg_reports_profile. Qed.
+Print Assumptions C12_fg_bg_reports_profile.
+
+(** get_terminal_name_version(): the replied name (lower-cased) and version — whatever the
+    identity string, "(" or " " form, ")" or not, ST or BEL — or the environment's
+    TERM_PROGRAM / TERM_PROGRAM_VERSION when XTVERSION is not answered; nothing left unread. *)
+Theorem C12_name_version_reports_profile :
+  forall cost c, (forall i, 0 <= cost i <= c) ->
+    forall cfg, enabled cfg = true -> 0 < qtimeout cfg ->
+    forall p, wf_profile p = true ->
+    forall delays st D,
+      pend st = [] -> timely c cfg (profile_terminal p delays) XTV_request D ->
+      exists st',
+        get_name_version cost cfg (profile_terminal p delays) st = (exp_name_version cfg p, st') /\
+        pend st' = [] /\ written st' = written st ++ [XTV_request] /\
+        now st <= now st' <= now st + qtimeout cfg
+          + c * (Z.of_nat (length (stream (profile_terminal p delays XTV_request))) + 4).
+Proof. exact name_version_reports_profile. Qed.
+Print Assumptions C12_name_version_reports_profile.
 
 (** *** colours *)
 
